@@ -131,6 +131,16 @@ func c06Exec(plan *Plan, st *Stats) *Violation {
 		if viol == nil {
 			// usable afterwards: further calls with in-range choices return an element, the end or an error
 			waitingStreak := 0
+			hasWaits := false // consecutive <<wait>> statements would legitimately answer "waiting" several times in a row
+			if plan.Program != nil {
+				for _, n := range plan.Program.Nodes {
+					walkStmts(n.Body, func(s *Stmt) {
+						if s.K == sWait {
+							hasWaits = true
+						}
+					})
+				}
+			}
 			for k := 0; k < 8; k++ {
 				arg := 0
 				if lastResp != nil && lastResp.Kind == rOptions && len(lastResp.Opts) > 0 {
@@ -152,7 +162,7 @@ func c06Exec(plan *Plan, st *Stats) *Violation {
 					viol = &Violation{Clause: "C06.unusable", OpIndex: len(plan.Ops) + k, Observed: r, Note: "Next panicked after an earlier error"}
 					break
 				}
-				if r.Kind == rWaiting && h.nInvs() == invsBefore {
+				if r.Kind == rWaiting && h.nInvs() == invsBefore && !hasWaits {
 					// waiting although no handler was started by this call: legitimate once (a <<wait>> just
 					// dispatched), never twice in a row with 10^5 simulated seconds in between
 					waitingStreak++
